@@ -9,8 +9,10 @@ whose statement it contradicts.
 """
 
 
-def item(bin, target, quick, thorough, param=0, max_len=None):
+def item(bin, target, quick, thorough, param=0, max_len=None, ubonly=False):
     d = {"bin": bin, "target": target, "quick": quick, "thorough": thorough, "param": param}
+    if ubonly:
+        d["ubonly"] = True  # C20 mode: only the memory-safety / wrap-arithmetic class of panics counts
     if max_len:
         d["max_len"] = max_len  # (quick, thorough) maximum case length in bytes
     return d
@@ -61,6 +63,23 @@ PLAN = {
     "C19": [
         item("h_model", "categorical", 600_000, 24_000_000, param=19, max_len=(2048, 16384)),
         item("h_model", "leaky", 48_000, 2_000_000, param=19, max_len=(2048, 4096)),
+    ],
+    "C10": [item("h_model", "c10_decode", 1_600_000, 48_000_000, max_len=(2048, 16384))],
+    "C09": [item("h_model", "c09_impossible", 1_600_000, 48_000_000, max_len=(2048, 16384))],
+    "C20": [
+        item("h_model", "c20_unsafe", 1_600_000, 64_000_000, max_len=(1024, 4096)),
+        item("h_model", "categorical", 400_000, 16_000_000, param=19, max_len=(2048, 16384), ubonly=True),
+        item("h_model", "leaky", 32_000, 1_500_000, param=19, max_len=(2048, 4096), ubonly=True),
+        item("h_model", "c10_decode", 800_000, 24_000_000, max_len=(2048, 16384), ubonly=True),
+        item("h_model", "c09_impossible", 400_000, 16_000_000, max_len=(2048, 16384), ubonly=True),
+        item("h_symbol", "c17_backends", 400_000, 16_000_000, max_len=(1024, 8192), ubonly=True),
+        item("h_symbol", "c15_huffman", 200_000, 8_000_000, max_len=(2048, 16384), ubonly=True),
+        item("h_symbol", "c16_bits", 400_000, 16_000_000, param=16, max_len=(1024, 8192), ubonly=True),
+        item("h_chain", "c13_chain", 400_000, 16_000_000, max_len=(1024, 8192), ubonly=True),
+        item("h_stream", "c01_ans", 400_000, 16_000_000, max_len=(1024, 4096), ubonly=True),
+        item("h_stream", "range_msg", 400_000, 16_000_000, param=2, max_len=(1024, 16384), ubonly=True),
+        item("h_stream", "c04_bitsback", 400_000, 16_000_000, max_len=(1024, 8192), ubonly=True),
+        item("h_stream", "c11_suffix", 200_000, 8_000_000, max_len=(2048, 2048), ubonly=True),
     ],
 }
 
@@ -166,6 +185,29 @@ RULES = {
            "probability list or with duplicates; uniform ranges 0, 1, 2^P, 2^P+1, usize::MAX; quantiser supports (see leaky target); "
            "oracle: Err or panic accepted, Ok(model) must satisfy the C03 predicate; a valid partial table with infer_last_probability "
            "must be accepted at every precision; non-trivial = a constructor returned a model with >= 3 symbols",
+    "C10": "case = (decoder from {ANS over Vec (from_binary / from_compressed), Cursor over slice, reversed Cursor, iterator backend with an "
+           "injected read error; range decoder over Vec / slice / iterator backend with injected error; chain coder from_binary / "
+           "from_compressed}, 0..200 (quick) / 0..2000 decodes, word data 0..24 / 0..200 words from {random, all-zero, all-ones, single bits, a "
+           "valid stream of in-support symbols that is truncated / extended / bit-flipped}, 1..3 valid models used round-robin from the zoo "
+           "{harness tables, uniform, contiguous _fast/_perfect/fixed-point, lazy f32/f64, non-contiguous, contiguous and non-contiguous "
+           "lookup decoders, leakily quantised distributions over i32 symbols with arbitrary inverse hints}); configs (PRECISION/Word/State): "
+           "8/u16/u32, 8/u8/u16, 12/u16/u32, 16/u16/u32, 12/u32/u64, 24/u32/u64, 32/u32/u64; non-trivial = >= 3 symbols decoded from >= 2 words",
+    "C09": "case = (coder from {ANS over Vec, range encoder, chain coder, ANS over a bounded Cursor of 0..7 words that fills up, ANS over a "
+           "sink that fails exactly the j-th write, bit-level stack / queue coder with a generated Huffman codebook}, 1..3 valid models with "
+           "an encoder view from the zoo used round-robin, encode history of 0..40 (quick) / 0..400 symbols in which each position is, with a "
+           "generated rate, a BAD encode of a symbol outside the model's support: neighbours of the support, type extremes, values congruent "
+           "to an in-support symbol modulo 2^8 / 2^16 / 2^32 / 2^ProbabilityBits); oracle: impossible-symbol error, exported state identical "
+           "before and after, the valid history decodes afterwards; after a backend write failure everything encoded before decodes and "
+           "encoding continues after a pop; configs as C10; non-trivial = history with >= 1 bad and >= 1 valid encode, or >= 1 failed write",
+    "C20": "the explorers of C01, C02, C04, C09, C10, C11, C13, C15, C16, C17 and the hostile-input explorers of C19 re-run in UB-only mode "
+           "(their own oracles are ignored; only panics of the memory-safety / wrap-arithmetic class count: std unsafe-precondition checks "
+           "for get_unchecked / NonZero::new_unchecked / unreachable_unchecked, arithmetic and shift overflow checks, death by signal), plus "
+           "C20-specific scripts: Cursor::buf_mut() followed by clear / truncate / push / replace and then reads, writes, size queries and "
+           "seeks through Cursor and Reverse<Cursor> and an ANS coder on top; AnsCoder / RangeEncoder / RangeDecoder::from_raw_parts and "
+           "seek with arbitrary values followed by encodes / decodes; quantile_function with arbitrary (out-of-range) quantiles and "
+           "left_cumulative_and_probability with arbitrary symbols on every zoo model; hostile constructor inputs followed by queries and "
+           "every conversion path (to_lookup_decoder_model, to_generic_*); Huffman trees from hostile weights, arbitrary symbols, garbage "
+           "bits; non-trivial = every executed script (the oracle is process-level)",
 }
 
 LEVEL_TEXT = {
@@ -186,6 +228,9 @@ LEVEL_TEXT = {
     "C03": "property-based search over valid model inputs with a two-directional validity predicate (encoder view tiles [0,2^P); decoder view inverts it on all / sampled quantiles)",
     "C05": "differential property-based search: every representation of a generated model reduced to its triple list and compared with the encoder view",
     "C19": "property-based search with hostile constructor inputs; accepted models must pass the C03 predicate",
+    "C10": "robustness property-based search (fuzz-style): any words, any valid models, all decoders; oracle = no panic / termination / symbol in support / only documented errors",
+    "C09": "stateful property-based search with fault injection (out-of-support symbols, bounded and failing sinks) against the recorded valid history",
+    "C20": "fuzz-style property-based search over safe-API call sequences in a checked build (debug assertions + overflow checks make std's unsafe-precondition violations and wrap-dependent arithmetic visible); libFuzzer + AddressSanitizer in the thorough tier",
 }
 
 TECHNIQUE = {
@@ -206,4 +251,7 @@ TECHNIQUE = {
     "C03": "property-based testing with a validity predicate over generated model inputs",
     "C05": "differential property-based testing across model representations",
     "C19": "property-based testing with hostile inputs (robustness oracle: reject cleanly or build a valid model)",
+    "C10": "property-based robustness testing (totality + membership oracle) over garbage and mutated valid streams",
+    "C09": "stateful property-based testing with injected faults (impossible symbols, failing writes)",
+    "C20": "fuzzing / property-based testing with a process-level oracle (UB checks, overflow checks, sanitizers)",
 }
